@@ -50,7 +50,11 @@ func (c *c07world) check(valid map[string][]string) {
 			w.ex.Fail("response-consumed-twice", "%s was returned by %d calls", k, n)
 		}
 	}
-	if s := w.recs["S"]; s != nil {
+	for _, callee := range []string{"S", "M"} {
+		s := w.recs[callee]
+		if s == nil {
+			continue
+		}
 		seen := map[string]int{}
 		for _, q := range handled(s, "C:") {
 			seen[q]++
@@ -246,6 +250,17 @@ func init() {
 		w.ex.Thread("G1", func() { w.n.Send(w.pids["C1"], "go") })
 		w.ex.Thread("G2", func() { w.n.Send(w.pids["C2"], "go") })
 		return map[string][]string{"q1": {"re:q1"}, "q2": {"re:q2"}, "p1": {"re:p1"}}
+	})
+	// the same with one request per caller under preemption bounding: both callers find the meta process asleep
+	// and wake it at the same moment (a request is presented once, whoever starts the mailbox loop)
+	c07Scenario("meta-callee-asleep-two-callers", 2, 3, false, func(c *c07world) map[string][]string {
+		w := c.w
+		id, _ := w.spawnMeta("M", gen.MetaOptions{})
+		c.caller("C1", func() any { return id }, "q1")
+		c.caller("C2", func() any { return id }, "p1")
+		w.ex.Thread("G1", func() { w.n.Send(w.pids["C1"], "go") })
+		w.ex.Thread("G2", func() { w.n.Send(w.pids["C2"], "go") })
+		return map[string][]string{"q1": {"re:q1"}, "p1": {"re:p1"}}
 	})
 }
 
